@@ -419,6 +419,11 @@ def run(rep, db, tier, seed):
     except Exception as u:
         rep.add(Obligation('validator pools', 'inconclusive', f'{type(u).__name__}: {u}'[:600]))
     try:
+        from props import c12_noise
+        c12_noise.run(rep, db, tier)
+    except Exception as u:
+        rep.add(Obligation('noise handshake session id', 'inconclusive', f'{type(u).__name__}: {u}'[:600]))
+    try:
         from props import c12_lifecycle
         c12_lifecycle.run(rep, db, tier)
     except Exception as u:
